@@ -602,10 +602,10 @@ def guarded_run(rig, st, seconds=3):
         rig.drivers.run()
     except Alarm:
         st.crash = 'Alarm'
-    if st.crash == 'Alarm':
-        rig.hangs = getattr(rig, 'hangs', 0) + 1
     finally:
         signal.alarm(0)
+    if st.crash == 'Alarm':
+        rig.hangs = getattr(rig, 'hangs', 0) + 1
 
 def run_l3(rig, r, lines, fault, probe_key, eof=False):
     irc, d, st = rig.session()
